@@ -25,7 +25,25 @@ import numpy as np
 
 from vkit import metagen, tlc, tracecheck
 
-LEN, TROUGH = 128, 42
+LEN, TROUGH = 128, 42        # the defaults of extract_wfs_cbin; a scenario may carry its own pair ("win")
+DEFAULT_WIN = (128, 42)
+
+
+class window:
+    """sets the module's LEN / TROUGH to a scenario's spike_length_samples / trough_offset while its train is built, the
+    real call is made and its files are judged (everything here runs in the harness process, one scenario at a time)"""
+
+    def __init__(self, sc):
+        self.win = tuple(sc.get("win") or DEFAULT_WIN)
+
+    def __enter__(self):
+        global LEN, TROUGH
+        self.old = (LEN, TROUGH)
+        LEN, TROUGH = self.win
+
+    def __exit__(self, *a):
+        global LEN, TROUGH
+        LEN, TROUGH = self.old
 
 
 def make_rec(ctx, kind, ns, rng, tag):
@@ -49,6 +67,10 @@ EMPTY_UNIT = 8      # a unit none of whose spikes can be extracted (all within t
 
 def build_train(sc):
     """the spike train of a scenario (run and replay)"""
+    if sc.get("noneok"):
+        # no spike far enough from both ends: every unit's quota is 0 (the call must still succeed, with empty outputs)
+        ns = sc["ns"]
+        return [(0, 3, 10), (5, 3, 10), (TROUGH, 5, 200), (ns - (LEN - TROUGH), 5, 0), (ns - 1, 7, 383)]
     t = make_train(sc["ns"], [500, 777, 1000, 3000, 6500, 10000], np.random.default_rng(sc["seed"]), sc["nunits"],
                    sc.get("train_maxwf", sc["maxwf"]), sc["nspk"], variant=sc["seed"] % 2, empty=sc.get("empty", False))
     m = IDMAPS[sc.get("ids", 0)]
@@ -289,6 +311,8 @@ def one_extract(ctx, binf, d, train, sc, idx, master=None):
     kw = {a: b for a, b in kw.items() if b is not None}
     if not sc.get("noseed"):
         kw["seed"] = sc.get("xseed", sc["seed"])
+    if (LEN, TROUGH) != DEFAULT_WIN:
+        kw["spike_length_samples"], kw["trough_offset"] = LEN, TROUGH
     if sc["njobs"] is None and sc["maxwf"] is None:
         import joblib
         if joblib.cpu_count() < 2:      # the default is half of the CPUs: not a worker count on a single-CPU machine
@@ -380,9 +404,10 @@ def one_extract(ctx, binf, d, train, sc, idx, master=None):
     # content indexed by waveform_index (row r <-> widx r when order_ok)
     rec["content"] = content
     # loader returns what was saved
-    absent = [int(u) for u in sorted({t[1] for t in train} - set(tab["cluster"].tolist()))] + [int(tab["cluster"].max()) + 17]
+    absent = [int(u) for u in sorted({t[1] for t in train} - set(tab["cluster"].tolist()))] + [(int(tab["cluster"].max()) if len(tab) else 0) + 17]
     try:
-        bad = check_loader(we, out if idx % 2 else str(out), tab, traces, chans, templ, exp_iwc, absent)
+        # an empty extraction (no spike far enough from both ends) leaves empty files: there is nothing for the loader to return
+        bad = check_loader(we, out if idx % 2 else str(out), tab, traces, chans, templ, exp_iwc, absent) if len(tab) else ""
     except Exception as e:  # noqa
         bad = f"{type(e).__name__}: {e}"[:200]
     if bad:
@@ -476,9 +501,10 @@ def one_array(ctx, binf, sc):
     return rec
 
 
-def write_cfg(ctx, ns):
-    f = Path(ctx.scratch) / f"WaveformTrace_{ns}.cfg"
-    f.write_text(f'SPECIFICATION Spec\nCONSTANTS\n  Variant = "fixed"\n  NS = {ns}\n  LEN = {LEN}\n  TROUGH = {TROUGH}\n'
+def write_cfg(ctx, ns, L=None, T=None):
+    L, T = (LEN if L is None else L), (TROUGH if T is None else T)
+    f = Path(ctx.scratch) / f"WaveformTrace_{ns}_{L}_{T}.cfg"
+    f.write_text(f'SPECIFICATION Spec\nCONSTANTS\n  Variant = "fixed"\n  NS = {ns}\n  LEN = {L}\n  TROUGH = {T}\n'
                  f'INVARIANT Consumed\nCHECK_DEADLOCK FALSE\n')
     return f
 
@@ -487,10 +513,10 @@ def validate(ctx, traces, label):
     out = []
     by = {}
     for i, t in enumerate(traces):
-        by.setdefault(t["ns"], []).append(i)
-    for ns, idx in sorted(by.items()):
-        vs = tracecheck.validate(ctx, "trace/WaveformTrace.tla", write_cfg(ctx, ns), [strip(traces[i]) for i in idx],
-                                 label=f"{label}{ns}", nstates=nstates, jvms=4, workers=2, timeout=1500)
+        by.setdefault((t["ns"],) + tuple(t.get("win") or DEFAULT_WIN), []).append(i)
+    for (ns, L, T), idx in sorted(by.items()):
+        vs = tracecheck.validate(ctx, "trace/WaveformTrace.tla", write_cfg(ctx, ns, L, T), [strip(traces[i]) for i in idx],
+                                 label=f"{label}{ns}_{L}_{T}", nstates=nstates, jvms=4, workers=2, timeout=1500)
         for v in vs:
             v["index"] = idx[v["index"]]
             out.append(v)
@@ -563,6 +589,16 @@ def scenarios(ctx):
             for e in extra:
                 scs.append(dict(common, train_maxwf=maxwf, k=k, left=[0, 1, 4, 2, 3][k % 5], **e))
                 k += 1
+            # spike_length_samples / trough_offset other than the defaults ("from sample-offset to sample-offset+length"): a group
+            # of its own (its own train: the margins move with the window), and a train without any extractable spike
+            if ti == (ri % 2) or not ctx.quick:
+                win = [[100, 30], [64, 20], [200, 60], [128, 0]][(ri + ti) % 4]
+                for chunk, nj in ([(500, 1), (3000, 2)] if ctx.quick else [(500, 1), (3000, 2), (10000, 4)]):
+                    scs.append(dict(common, maxwf=maxwf, chunk=chunk, njobs=nj, win=win, group=f"r{ri}t{ti}win", k=k, left=0))
+                    k += 1
+            if ti == 0:
+                scs.append(dict(common, maxwf=maxwf, chunk=3000, njobs=2, noneok=True, group=f"r{ri}none", k=k, left=0, ids=0, empty=False))
+                k += 1
         # the gather called directly
         cases = ARRAY_CASES[ri % 2::2] if ctx.quick else ARRAY_CASES
         for ci, case in enumerate(cases):
@@ -603,10 +639,12 @@ def run(ctx):
             traces.append(one_array(ctx, binf, sc))
             ctx.count(1, key=(sc["kind"], "array") + tuple(sc["array"]))
             continue
-        tk = (sc["rec"], sc["train"])
-        if tk not in trains:
-            trains[tk] = build_train(sc)
-        t = one_extract(ctx, binf, d, trains[tk], sc, i, masters.setdefault(tk, {}))
+        tk = (sc["rec"], sc["train"], tuple(sc.get("win") or DEFAULT_WIN), bool(sc.get("noneok")))
+        with window(sc):
+            if tk not in trains:
+                trains[tk] = build_train(sc)
+            t = one_extract(ctx, binf, d, trains[tk], sc, i, masters.setdefault(tk, {}))
+        t["win"] = list(sc.get("win") or DEFAULT_WIN)
         traces.append(t)
         ctx.count(1, key=(sc["kind"], sc["ns"], sc["train"], sc["maxwf"], sc["chunk"], sc["njobs"]))
     verdicts = validate(ctx, traces, "wfs")
@@ -694,7 +732,10 @@ def replay(ctx, sc):
         if "array" in s:
             traces.append(one_array(ctx, binf, s))
             continue
-        traces.append(one_extract(ctx, binf, d, build_train(s), s, i, masters.setdefault((s["rec"], s["train"]), {})))
+        with window(s):
+            t = one_extract(ctx, binf, d, build_train(s), s, i, masters.setdefault((s["rec"], s["train"], tuple(s.get("win") or DEFAULT_WIN)), {}))
+        t["win"] = list(s.get("win") or DEFAULT_WIN)
+        traces.append(t)
     report(ctx, scs, traces, validate(ctx, traces, "replay"))
     hs = {tuple(t["hash"]) for t in traces if t["hash"]}
     if len(scs) > 1 and len(hs) > 1:
